@@ -2,6 +2,8 @@ package harness
 
 import (
 	"fmt"
+	"net"
+	"net/http"
 	"os"
 	"path/filepath"
 	"strconv"
@@ -12,6 +14,7 @@ import (
 	"github.com/openebs/jiva/backend/dynamic"
 	"github.com/openebs/jiva/backend/remote"
 	"github.com/openebs/jiva/controller"
+	controllerrest "github.com/openebs/jiva/controller/rest"
 	"github.com/openebs/jiva/rpc"
 	"github.com/openebs/jiva/types"
 )
@@ -124,15 +127,18 @@ func (f *stackFactory) SignalsCopy() []Signal {
 
 // Stack = the real controller wired to in-process nodes.
 type Stack struct {
-	Base  string
-	RF    int
-	Size  int64
-	C     *controller.Controller
-	Front *fakeFrontend
-	Fac   *stackFactory
-	Nodes []*Node
-	Fast  bool
-	slot  int
+	Base   string
+	RF     int
+	Size   int64
+	C      *controller.Controller
+	Front  *fakeFrontend
+	Fac    *stackFactory
+	Nodes  []*Node
+	Fast   bool
+	slot   int
+	CtrlIP string
+	ctrlLn net.Listener
+	System bool
 }
 
 var slotSeq int
@@ -206,7 +212,46 @@ func NewStack(rf, nNodes int, size int64) (*Stack, error) {
 	return st, nil
 }
 
+// EnableSystem starts what the real rebuild needs: the controller's REST API on
+// <ctrl ip>:9501 and one sync-agent child per node with disjoint ssync port ranges.
+func (st *Stack) EnableSystem() error {
+	if st.System {
+		return nil
+	}
+	bin := os.Getenv("VERIF_JIVA_BIN")
+	if bin == "" {
+		return fmt.Errorf("VERIF_JIVA_BIN not set")
+	}
+	st.CtrlIP = nodeIP(st.slot, 200)
+	ln, err := net.Listen("tcp", st.CtrlIP+":9501")
+	if err != nil {
+		return err
+	}
+	st.ctrlLn = ln
+	st.serveController()
+	base := 20000 + 600*(shardNo()%64)
+	for i, n := range st.Nodes {
+		if err := n.StartAgent(bin, base+40*i, base+40*i+39); err != nil {
+			return err
+		}
+	}
+	st.System = true
+	return nil
+}
+
+func (st *Stack) serveController() {
+	// the handler looks the controller up on every request: it may be replaced (RestartController)
+	go http.Serve(st.ctrlLn, http.HandlerFunc(func(w http.ResponseWriter, r *http.Request) {
+		controllerrest.NewRouter(controllerrest.NewServer(st.C)).ServeHTTP(w, r)
+	}))
+}
+
+func (st *Stack) CtrlURL() string { return "http://" + st.CtrlIP + ":9501" }
+
 func (st *Stack) Destroy() {
+	if st.ctrlLn != nil {
+		st.ctrlLn.Close()
+	}
 	done := make(chan struct{})
 	go func() {
 		for _, n := range st.Nodes {
